@@ -30,8 +30,31 @@ def run(report, db, tier):
     R5 = report.rule('R12.5', 'what is queued belongs to one connection: '
                      '_connect starts from an empty, unbounded outgoing '
                      'queue')
-    shared.fresh_connection_state(report, R5, db, shared.summariser(db, cg),
-                                  M, ('queue',))
+    S = shared.summariser(db, cg)
+    shared.fresh_connection_state(report, R5, db, S, M, ('queue',))
+    # "well-formed frame, also under compression": a queued packet is framed
+    # in the mode in force when it is written, and the reactor switches the
+    # mode the moment the server announces it -- so the switch itself must
+    # not flush the queue first
+    from ..pathsum import struct
+    R6 = report.rule('R12.6', 'a queued packet is framed in the mode in '
+                     'force when it is written: the reactors write nothing '
+                     'between a set-compression packet and the switch')
+    CONN = 'minecraft.networking.connection'
+    nsw = 0
+    for cname in ('LoginReactor', 'PlayingReactor'):
+        ci = db.get_class(CONN, cname)
+        fi = db.own_method(ci, 'react')
+        if fi is None:
+            raise AnalysisError('%s.react vanished' % cname)
+        me = ('sym', fi.params[0])
+        opts = ('attr', ('attr', me, 'connection'), 'options')
+        nsw += shared.switch_is_quiet(
+            report, R6, db, S, M, cg, fi, S.run(fi), 'set compression',
+            lambda e: struct(e.base) == opts and e.attr in (
+                'compression_threshold', 'compression_enabled'),
+            what='compression threshold') or 0
+    report.floor('set-compression paths checked', nsw, 2)
 
 
 # ---------------------------------------------------------------------------
